@@ -172,6 +172,7 @@ func faPool(names, seqs []string) []faRec {
 }
 
 func runC01(r *core.Run) {
+	firstCallClause(r, "fasta.")
 	pool := faPool(enum.AllStrings("a>", 2), enum.AllStrings("AC", 3))
 	maxRecs := core.Pick(r, 2, 3)
 	r.Bound("content", fmt.Sprintf("names over {a,>}^<=2, sequences over {A,C}^<=3 (%d records); every list of 0..%d records", len(pool), maxRecs))
